@@ -52,6 +52,23 @@ theorem accepts_bool (env : Env) (f : Flags) (hf : f.frozen = false) (v : Val) :
   cases v <;> simp [accepts, apply, isOk_gate_missing, isOk_gate_none, hf] <;>
     simp [gate, hf, Val.isMissing, Val.isNone, isOk, typeCheck, instOf, Val.ty, Ty.sub, convert]
 
+/-- What a non-frozen `Int` spec accepts. -/
+theorem accepts_int (env : Env) (lo hi : Option Int) (f : Flags) (hf : f.frozen = false) (v : Val) :
+    accepts env (.int lo hi f) v =
+      match v with
+      | .none => f.noneable
+      | .int i => !outOfRange (lo.map Num.ofInt) (hi.map Num.ofInt) ⟨i, 0⟩
+      | .bool b => !outOfRange (lo.map Num.ofInt) (hi.map Num.ofInt) ⟨if b then 1 else 0, 0⟩
+      | _ => false := by
+  cases v <;>
+    simp [accepts, apply, gate, hf, Val.isMissing, Val.isNone, typeCheck, instOf, Val.ty, Ty.sub, convert,
+      isOk, bind, Except.bind, rangeCheck, Val.num?]
+  · cases f.noneable <;> simp [isOk]
+  · rename_i b
+    cases outOfRange (lo.map Num.ofInt) (hi.map Num.ofInt) ⟨if b then 1 else 0, 0⟩ <;> rfl
+  · rename_i i
+    cases outOfRange (lo.map Num.ofInt) (hi.map Num.ofInt) ⟨i, 0⟩ <;> rfl
+
 theorem accepts_float (env : Env) (lo hi : Option Num) (f : Flags) (hf : f.frozen = false) (v : Val) :
     accepts env (.float lo hi f) v =
       match v with
